@@ -55,6 +55,23 @@ def h_G(c):
     return (c["gx"], c["gy"])
 
 
+def _clear_memo_caches():
+    """functools caches anywhere in the loaded bits modules (an implementation may memoise pure functions of the curve;
+    rebinding the curve constants under it invalidates those memos)"""
+    import sys
+    for name, mod in list(sys.modules.items()):
+        if mod is None or not (name == "bits" or name.startswith("bits.")):
+            continue
+        for v in list(vars(mod).values()):
+            for obj in [v] + ([x for x in vars(v).values()] if isinstance(v, type) else []):
+                cc = getattr(obj, "cache_clear", None)
+                if callable(cc):
+                    try:
+                        cc()
+                    except Exception:  # noqa
+                        pass
+
+
 @contextlib.contextmanager
 def retarget(curve):
     """Point bits.ecmath (default arguments + module constants) and the by-value copies in
@@ -72,6 +89,7 @@ def retarget(curve):
         mods.append(b340)
     except Exception:  # noqa
         b340 = None
+    _clear_memo_caches()     # results memoised for one curve must not be served for another
     consts = {"SECP256K1_P": curve["p"], "SECP256K1_A": 0, "SECP256K1_B": curve["b"], "SECP256K1_N": curve["n"],
               "SECP256K1_Gx": curve["gx"], "SECP256K1_Gy": curve["gy"], "SECP256K1_G_n": curve["n"]}
     try:
@@ -96,6 +114,7 @@ def retarget(curve):
             fn.__defaults__ = d
         for (m, k), v in saved_consts.items():
             setattr(m, k, v)
+        _clear_memo_caches()
         assert em.SECP256K1_P == SECP["p"] and em.point_is_on_curve(SECP["gx"], SECP["gy"])
         assert em.point_scalar_mul.__defaults__ == (0, 7)
 
